@@ -1,5 +1,347 @@
 /-
-C15 — property theorems (stub: no theorem stated yet, so no obligation is counted).
+C15 — Index serialisation round trip keeps bytes, answers and statistics.
+PROPERTY THEOREMS ONLY (helper lemmas: Hts.Lemmas.IndexIO, Hts.Lemmas.IndexStats).
+
+`WF i` = the index is representable in the format (counts fit int32, bin numbers fit uint32 and are
+not the pseudo-bin number, offsets fit the signed 64-bit virtual offset, counters fit uint64) and its
+`IsSorted` flag is truthful.  Every index built by `Add` from the empty index has the flag false, so
+for those `WF` is representability alone (`wf_of_unsorted`); every index returned by a reader is in
+canonical form (`wf_norm`).
 -/
+import Hts.Lemmas.IndexIO
+import Hts.Lemmas.IndexIOTabix
+import Hts.Lemmas.IndexTabixNames
+import Hts.Lemmas.IndexIOCsi
+import Hts.Lemmas.IndexStats
+import Hts.Lemmas.IndexRepr
+import Hts.Lemmas.IndexIORead
+import Hts.Lemmas.IndexIOTabixRead
+import Hts.Props.C04
 namespace Hts.Props.C15
+open Hts.Model Hts.Model.Index Hts.Model.IndexIO
+
+/-! ### BAI: read ∘ write -/
+
+/-- `read_write` (BAI): reading the written bytes succeeds and gives exactly the canonical form of
+the index, for every well-formed index with at least one reference -/
+theorem bai_read_write (i : Index) (h : WF i) (hne : i.refs ≠ []) :
+    readBai (writeBai i) = .ok (some (norm i)) := readBai_writeBai i h hne
+
+/-- the full statement (no restriction on the number of references) -/
+def bai_read_write_full : Prop := ∀ i : Index, WF i → readBai (writeBai i) = .ok (some (norm i))
+
+/-- it is false: an index without references (only unplaced records, or no record) reads back as a
+nil index — DESIGN §6 #25, kept as a recorded finding -/
+theorem bai_read_write_witness : ¬ bai_read_write_full := by
+  intro h
+  have h1 := h { unmapped := some 3 }
+    { nrefs := (by decide), bounds := (by intro r hr; cases hr), flag := (by intro h; cases h),
+      um := (by intro n hn; cases hn; decide) }
+  rw [readBai_writeBai_noRefs _ rfl] at h1
+  cases h1
+
+/-- `write_norm`: the canonical form writes to the same bytes -/
+theorem bai_write_norm (i : Index) : writeBai (norm i) = writeBai i := writeBai_norm i
+
+/-- hence: write, read, write again gives identical bytes -/
+theorem bai_rewrite_identical (i : Index) (h : WF i) (hne : i.refs ≠ []) :
+    ∃ i', readBai (writeBai i) = .ok (some i') ∧ writeBai i' = writeBai i ∧ WF i' :=
+  ⟨norm i, readBai_writeBai i h hne, writeBai_norm i, wf_norm i h⟩
+
+/-- `chunks_norm`: every `Chunks` query is answered identically by the re-read index (BAI and tabix
+share `internal.Index.Chunks`) -/
+theorem chunks_norm (i : Index) (rid beg stop : Int) (bins : List Nat) :
+    chunks (norm i) rid beg stop bins = chunks i rid beg stop bins := IndexIO.chunks_norm i rid beg stop bins
+
+theorem bai_chunks_norm (s : List Chunk → List Chunk) (i : Index) (rid beg stop : Int) :
+    Bai.chunks Coord.overlappingBinsFor s (norm i) rid beg stop =
+      Bai.chunks Coord.overlappingBinsFor s i rid beg stop := by
+  unfold Bai.chunks; rw [IndexIO.chunks_norm]
+
+/-- the re-read index reports the same reference count, per-reference statistics and unplaced count -/
+theorem stats_norm (i : Index) :
+    (norm i).refs.length = i.refs.length ∧ (norm i).unmapped = i.unmapped ∧
+      ∀ j : Nat, ((norm i).refs[j]?).map (fun r : RefIndex => r.stats) =
+        (i.refs[j]?).map (fun r : RefIndex => r.stats) :=
+  ⟨norm_refs_length i, rfl, norm_stats i⟩
+
+/-- the canonical form is stable and well-formed: a previously read index can be written and read
+again any number of times -/
+theorem norm_idempotent (i : Index) : norm (norm i) = norm i := norm_norm i
+theorem norm_wf (i : Index) (h : WF i) : WF (norm i) := wf_norm i h
+
+/-- C04's completeness carries over to the index read back from the written bytes: composition of
+`chunks_complete`, `bai_read_write` and `chunks_norm` -/
+theorem bai_chunks_complete_after_roundtrip (recs : List Bai.BaiRec)
+    (h : SortedInput (recs.map Hts.Props.C04.baiRec)) (hwf : WF (Hts.Props.C04.baiBuilt recs))
+    (r : Bai.BaiRec) (hr : r ∈ recs) (hp : (Hts.Props.C04.baiRec r).placed = true)
+    (beg stop : Int) (hb : 0 ≤ beg) (hq : beg < stop) (hs29 : stop ≤ 536870912)
+    (hov1 : r.pos < stop) (hov2 : beg < r.stop) (s : List Chunk → List Chunk) (hs : EncLaw s) :
+    ∃ i', readBai (writeBai (Hts.Props.C04.baiBuilt recs)) = .ok (some i') ∧
+      ∃ cs, Bai.chunks Coord.overlappingBinsFor s i' (Hts.Props.C04.baiRec r).rid beg stop = .ok cs ∧
+        coveredBy cs r.chunk := by
+  have hmem : Hts.Props.C04.baiRec r ∈ recs.map Hts.Props.C04.baiRec := List.mem_map.2 ⟨r, hr, rfl⟩
+  obtain ⟨ref, href, _⟩ := Hts.Props.C04.bins_inv _ h _ hmem hp
+  have hne : (Hts.Props.C04.baiBuilt recs).refs ≠ [] := by
+    intro he
+    unfold Hts.Props.C04.baiBuilt Hts.Props.C04.built at he
+    rw [he] at href; simp at href
+  refine ⟨norm (Hts.Props.C04.baiBuilt recs), readBai_writeBai _ hwf hne, ?_⟩
+  rw [bai_chunks_norm]
+  exact (Hts.Props.C04.bai_chunks_complete recs h r hr hp beg stop hb hq hs29 hov1 hov2 id s encLaw_id hs).1
+
+/-- "or previously read" (BAI): WHATEVER byte string `bam.ReadIndex` accepts, the index it returns is
+well-formed, so writing it and reading it back gives its canonical form, the same bytes on every
+further write, the same answers and the same statistics -/
+theorem bai_previously_read (bs : Bytes) (i : Index) (h : readBai bs = .ok (some i)) :
+    WF i ∧ readBai (writeBai i) = .ok (some (norm i)) ∧ writeBai (norm i) = writeBai i ∧
+      (∀ rid beg stop bins, chunks (norm i) rid beg stop bins = chunks i rid beg stop bins) ∧
+      (norm i).unmapped = i.unmapped := by
+  obtain ⟨hwf, hne⟩ := readBai_wf h
+  exact ⟨hwf, readBai_writeBai i hwf hne, writeBai_norm i, IndexIO.chunks_norm i, rfl⟩
+
+/-- every index built by `Add` from a coordinate-sorted input is representable (`WF`), under
+hypotheses on the INPUT only: fewer than 2^31 - 1 records, reference ids below 2^31 - 1, bin numbers as
+produced by `BinFor`/`Record.Bin` (below the pseudo-bin number), chunk offsets below 2^63 -/
+theorem built_wf (recs : List Rec) (h : SortedInput recs) (hlen : recs.length < 2147483647)
+    (hrid : ∀ r, r ∈ recs → r.rid < 2147483647)
+    (hbin : ∀ r, r ∈ recs → r.placed = true → r.bin < 37450)
+    (hoff : ∀ r, r ∈ recs → r.chunk.e < 9223372036854775808) : WF (addAll {} recs).1 :=
+  IndexIO.built_wf recs h hlen hrid hbin hoff
+
+/-- BAI end to end, hypotheses on the input only: the index built from any coordinate-sorted sequence
+of `sam.Record`s with at least one placed record is written, read back as its canonical form, and
+written again to identical bytes -/
+theorem bai_roundtrip_built (recs : List Bai.BaiRec) (h : SortedInput (recs.map Hts.Props.C04.baiRec))
+    (hlen : recs.length < 2147483647) (hrid : ∀ r, r ∈ recs → r.rid < 2147483647)
+    (hoff : ∀ r, r ∈ recs → r.chunk.e < 9223372036854775808)
+    (hplaced : ∃ r, r ∈ recs ∧ (Hts.Props.C04.baiRec r).placed = true) :
+    readBai (writeBai (Hts.Props.C04.baiBuilt recs)) = .ok (some (norm (Hts.Props.C04.baiBuilt recs))) ∧
+      writeBai (norm (Hts.Props.C04.baiBuilt recs)) = writeBai (Hts.Props.C04.baiBuilt recs) := by
+  have hwf : WF (Hts.Props.C04.baiBuilt recs) := by
+    apply IndexIO.built_wf _ h (by simpa using hlen)
+    · intro x hx
+      obtain ⟨r, hr, rfl⟩ := List.mem_map.1 hx
+      show (if r.hasRef then r.rid else -1) < _
+      have := hrid r hr
+      split <;> omega
+    · intro x hx hp
+      obtain ⟨r, hr, rfl⟩ := List.mem_map.1 hx
+      have hok := h.ok _ (List.mem_map.2 ⟨r, hr, rfl⟩)
+      obtain ⟨h0, _⟩ := hok.pos hp
+      have hv := hok.vstart
+      simp only [validPos, Bool.and_eq_true, decide_eq_true_eq] at hv
+      exact binFor_lt _ _ h0 (by have := hv.2; show r.pos < _; have : (Hts.Props.C04.baiRec r).start = r.pos := rfl; omega)
+    · intro x hx
+      obtain ⟨r, hr, rfl⟩ := List.mem_map.1 hx
+      exact hoff r hr
+  obtain ⟨r, hr, hp⟩ := hplaced
+  have hmem : Hts.Props.C04.baiRec r ∈ recs.map Hts.Props.C04.baiRec := List.mem_map.2 ⟨r, hr, rfl⟩
+  obtain ⟨ref, href, _⟩ := Hts.Props.C04.bins_inv _ h _ hmem hp
+  have hne : (Hts.Props.C04.baiBuilt recs).refs ≠ [] := by
+    intro he
+    unfold Hts.Props.C04.baiBuilt Hts.Props.C04.built at he
+    rw [he] at href; simp at href
+  exact ⟨readBai_writeBai _ hwf hne, writeBai_norm _⟩
+
+/-! ### tabix: header fields, name block, index body -/
+
+/-- `read_write` (tabix): for every representable tabix index (header fields in their int32/byte
+ranges, at least one reference, as many NUL-free names as references) -/
+theorem tabix_read_write (t : Tabix.TIndex) (h : TWF t) : readTabix (writeTabix t) = .ok (some (normTabix t)) :=
+  readTabix_writeTabix t h
+
+theorem tabix_write_norm (t : Tabix.TIndex) : writeTabix (normTabix t) = writeTabix t := writeTabix_norm t
+
+theorem tabix_rewrite_identical (t : Tabix.TIndex) (h : TWF t) :
+    ∃ t', readTabix (writeTabix t) = .ok (some t') ∧ writeTabix t' = writeTabix t ∧
+      t'.hdr = t.hdr ∧ t'.names = t.names ∧ t'.idx = norm t.idx :=
+  ⟨normTabix t, readTabix_writeTabix t h, writeTabix_norm t, rfl, rfl, rfl⟩
+
+/-- "or previously read" (tabix): whatever byte string `tabix.ReadFrom` accepts, the index it returns is
+well-formed, reads back as its canonical form and re-writes to the same bytes -/
+theorem tabix_previously_read (bs : Bytes) (t : Tabix.TIndex) (h : readTabix bs = .ok (some t)) :
+    TWF t ∧ readTabix (writeTabix t) = .ok (some (normTabix t)) ∧ writeTabix (normTabix t) = writeTabix t :=
+  ⟨readTabix_wf h, readTabix_writeTabix t (readTabix_wf h), writeTabix_norm t⟩
+
+/-- queries by name are answered identically when the re-built name map agrees with the one `Add`
+maintained (it does for distinct names in first-appearance order; checked by correspondence) -/
+theorem tabix_chunks_norm (adj : List Chunk → List Chunk) (t : Tabix.TIndex) (name : Tabix.Name) (beg stop : Int)
+    (hmap : Tabix.mapGet (Tabix.buildMap t.names) name = Tabix.mapGet t.nameMap name) :
+    Tabix.chunks Coord.overlappingBinsFor adj (normTabix t) name beg stop =
+      Tabix.chunks Coord.overlappingBinsFor adj t name beg stop := by
+  unfold Tabix.chunks
+  show (match Tabix.mapGet (Tabix.buildMap t.names) name with
+    | none => _ | some id => match Index.chunks (norm t.idx) _ _ _ _ with | .error e => _ | .ok cs => _) = _
+  rw [hmap]
+  cases Tabix.mapGet t.nameMap name with
+  | none => rfl
+  | some id => simp only [IndexIO.chunks_norm]; rfl
+
+/-- for every tabix index built by `Add` (any input, sorted or not) the name table is consistent:
+as many names as references, pairwise distinct, and the map rebuilt by `ReadFrom` resolves every name
+as the map maintained by `Add` does -/
+theorem tabix_names_consistent (hdr : Tabix.Header) (recs : List Tabix.TRec) :
+    (Hts.Props.C04.tbxBuilt hdr recs).names.length = (Hts.Props.C04.tbxBuilt hdr recs).idx.refs.length ∧
+    (Hts.Props.C04.tbxBuilt hdr recs).names.Nodup ∧
+    ∀ name, Tabix.mapGet (Tabix.buildMap (Hts.Props.C04.tbxBuilt hdr recs).names) name =
+      Tabix.mapGet (Hts.Props.C04.tbxBuilt hdr recs).nameMap name :=
+  ⟨Tabix.addAll_count Coord.binFor recs _ (Tabix.nameInv_empty hdr) rfl,
+   (Tabix.addAll_nameInv Coord.binFor recs _ (Tabix.nameInv_empty hdr)).nodup,
+   Tabix.built_map_agrees Coord.binFor hdr recs⟩
+
+/-- hence every query by name is answered identically by the re-read form of a built index -/
+theorem tabix_chunks_norm_built (hdr : Tabix.Header) (recs : List Tabix.TRec) (name : Tabix.Name) (beg stop : Int) :
+    Tabix.chunks Coord.overlappingBinsFor Local.adjacent (normTabix (Hts.Props.C04.tbxBuilt hdr recs)) name beg stop =
+      Tabix.chunks Coord.overlappingBinsFor Local.adjacent (Hts.Props.C04.tbxBuilt hdr recs) name beg stop :=
+  tabix_chunks_norm _ _ name beg stop (Tabix.built_map_agrees Coord.binFor hdr recs name)
+
+/-- the zero-reference case for tabix (same finding as BAI) -/
+theorem tabix_read_write_noRefs (hdr : Tabix.Header) : readTabix (writeTabix { hdr := hdr }) = .ok none := by
+  unfold readTabix writeTabix
+  have hm : ∀ X : Bytes, rBytes 4 (tbiMagic ++ X) = .ok (tbiMagic, X) := by intro X; simp [rBytes, tbiMagic]
+  simp only [List.append_assoc]
+  rw [hm]
+  simp only [ne_eq, not_true_eq_false, if_false]
+  rw [rI32_i32 _ (by simp) (by simp)]
+  simp
+
+/-! ### CSI versions 1 and 2, any auxiliary bytes -/
+
+/-- `read_write` (CSI): for every representable CSI index of version 1 or 2 with depth ≤ 9 -/
+theorem csi_read_write (i : Csi.CIndex) (h : CWF i) : readCsi (writeCsi i) = .ok (normCsi i) :=
+  readCsi_writeCsi i h
+
+theorem csi_write_norm (i : Csi.CIndex) : writeCsi (normCsi i) = writeCsi i := writeCsi_norm i
+
+theorem csi_rewrite_identical (i : Csi.CIndex) (h : CWF i) :
+    ∃ i', readCsi (writeCsi i) = .ok i' ∧ writeCsi i' = writeCsi i ∧ i'.aux = i.aux ∧ i'.version = i.version ∧
+      i'.minShift = i.minShift ∧ i'.depth = i.depth ∧ i'.unmapped = i.unmapped :=
+  ⟨normCsi i, readCsi_writeCsi i h, writeCsi_norm i, rfl, rfl, rfl, rfl, rfl⟩
+
+theorem csi_chunks_norm (i : Csi.CIndex) (rid beg stop : Int) :
+    Csi.chunks Coord.reg2bins Local.adjacent (normCsi i) rid beg stop =
+      Csi.chunks Coord.reg2bins Local.adjacent i rid beg stop :=
+  IndexIO.csi_chunks_norm _ _ i rid beg stop
+
+/-- C04's completeness for CSI carries over to the index read back from the written bytes -/
+theorem csi_chunks_complete_after_roundtrip (ms d : Nat) (hd : d ≤ 10) (recs : List Csi.CRec)
+    (h : Csi.CSortedInput ms d recs) (hwf : CWF (Hts.Props.C04.csiBuilt ms d recs))
+    (r : Csi.CRec) (hr : r ∈ recs) (hp : r.placed = true)
+    (beg stop : Int) (hb : 0 ≤ beg) (hq : beg < stop) (hs : stop ≤ (2 : Int) ^ (ms + 3 * d))
+    (hov1 : r.start < stop) (hov2 : beg < r.stop) :
+    ∃ i', readCsi (writeCsi (Hts.Props.C04.csiBuilt ms d recs)) = .ok i' ∧
+      coveredBy (Csi.chunks Coord.reg2bins Local.adjacent i' r.rid beg stop) r.chunk := by
+  refine ⟨_, readCsi_writeCsi _ hwf, ?_⟩
+  rw [IndexIO.csi_chunks_norm]
+  exact (Hts.Props.C04.csi_chunks_complete ms d hd recs h r hr hp beg stop hb hq hs hov1 hov2 id encLaw_id).1
+
+/-! ### statistics equal the true counts -/
+
+/-- `stats_true` (`internal.Index`, hence BAI and tabix): after any coordinate-sorted sequence, for
+every reference the statistics are the true ones of the placed records of that reference (first
+chunk begin, last chunk end, number of mapped and unmapped records; no statistics iff no record), the
+unplaced counter is the number of unplaced records (absent iff nothing was added) and the reference
+count is the last placed record's reference id + 1 -/
+theorem stats_true (recs : List Rec) (h : SortedInput recs) :
+    (∀ (j : Nat) (ref : RefIndex), (addAll {} recs).1.refs[j]? = some ref →
+        ref.stats = specStats ((recs.filter (·.placed)).filter (fun a => decide (a.rid = (j : Int))))) ∧
+    (recs ≠ [] → (addAll {} recs).1.unmapped = some (recs.countP (fun r => !r.placed))) ∧
+    (recs = [] → (addAll {} recs).1.unmapped = none) ∧
+    (∀ l, (recs.filter (·.placed)).getLast? = some l → ((addAll {} recs).1.refs.length : Int) = l.rid + 1) ∧
+    (recs.filter (·.placed) = [] → (addAll {} recs).1.refs = []) := by
+  have inv := (addAll_sorted recs h).2
+  refine ⟨?_, ?_, ?_, ?_, ?_⟩
+  · intro j ref hj
+    have := (inv.refInv j ref hj).stats
+    rw [this, statsOf_spec]
+    congr 1
+    unfold onRef
+    rw [← List.filter_reverse, List.reverse_reverse]
+  · intro hne
+    have := addAll_unmapped recs {} (fun r hr => ⟨(h.ok r hr).vstart, (h.ok r hr).vstop⟩) hne
+    rw [this]; simp [umCount]
+  · intro he; subst he; rfl
+  · intro l hl
+    cases hrev : (recs.filter (·.placed)).reverse with
+    | nil =>
+      rw [List.reverse_eq_nil_iff] at hrev
+      rw [hrev] at hl; cases hl
+    | cons a rest =>
+      have hla : l = a := by
+        have : (recs.filter (·.placed)) = (a :: rest).reverse := by rw [← hrev, List.reverse_reverse]
+        rw [this] at hl
+        simpa using hl.symm
+      subst hla
+      exact (inv.last l rest hrev).1
+  · intro he
+    exact inv.len0 (by rw [he]; rfl)
+
+/-- `stats_true` for CSI (every geometry): per-reference statistics, unplaced counter and reference
+count of an index built from a coordinate-sorted sequence are the true ones -/
+theorem csi_stats_true (ms d : Nat) (recs : List Csi.CRec) (h : Csi.CSortedInput ms d recs) :
+    (∀ (j : Nat) (ref : Csi.CRef), (Hts.Props.C04.csiBuilt ms d recs).refs[j]? = some ref →
+        ref.stats = Csi.specStatsC ((recs.filter (·.placed)).filter (fun a => decide (a.rid = (j : Int))))) ∧
+    (recs ≠ [] → (Hts.Props.C04.csiBuilt ms d recs).unmapped = some (recs.countP (fun r => !r.placed))) ∧
+    (∀ l, (recs.filter (·.placed)).getLast? = some l →
+        ((Hts.Props.C04.csiBuilt ms d recs).refs.length : Int) = l.rid + 1) ∧
+    (recs.filter (·.placed) = [] → (Hts.Props.C04.csiBuilt ms d recs).refs = []) := by
+  obtain ⟨_, _, _, inv⟩ := Hts.Props.C04.csi_inv ms d recs h
+  refine ⟨?_, ?_, ?_, ?_⟩
+  · intro j ref hj
+    have := (inv.refInv j ref hj).stats
+    rw [this, Csi.statsOfC_spec]
+    congr 1
+    unfold Csi.onRef
+    rw [← List.filter_reverse, List.reverse_reverse]
+  · intro hne
+    have := Csi.addAll_unmapped Coord.reg2bin ms d recs (Hts.Props.C04.csiNew ms d) rfl rfl
+      (fun r hr => ⟨(h.ok r hr).vstart, (h.ok r hr).vstop⟩) hne
+    unfold Hts.Props.C04.csiBuilt
+    rw [this]; simp [umCount, Hts.Props.C04.csiNew]
+  · intro l hl
+    cases hrev : (recs.filter (·.placed)).reverse with
+    | nil =>
+      rw [List.reverse_eq_nil_iff] at hrev
+      rw [hrev] at hl; cases hl
+    | cons a rest =>
+      have hla : l = a := by
+        have : (recs.filter (·.placed)) = (a :: rest).reverse := by rw [← hrev, List.reverse_reverse]
+        rw [this] at hl
+        simpa using hl.symm
+      subst hla
+      exact (inv.last l rest hrev).1
+  · intro he
+    exact inv.len0 (by rw [he]; rfl)
+
+/-! ### non-vacuity (tests) -/
+
+/-- a well-formed index with two references, statistics, a sparse tile array and a trailer -/
+def exIdx : Index :=
+  { refs := [ ⟨[⟨4681, [⟨100, 150⟩]⟩, ⟨585, [⟨150, 200⟩]⟩], some ⟨⟨100, 200⟩, 2, 0⟩, [100, 150]⟩, {} ],
+    unmapped := some 1, isSorted := false, lastRecord := 16000 }
+
+example : WF exIdx :=
+  wf_of_unsorted _ rfl (by decide)
+    (by
+      intro r hr
+      simp only [exIdx, List.mem_cons, List.mem_nil_iff, or_false] at hr
+      rcases hr with rfl | rfl
+      · refine ⟨by decide, ?_, ?_, by decide, ?_⟩
+        · intro b hb
+          simp only [List.mem_cons, List.mem_nil_iff, or_false] at hb
+          rcases hb with rfl | rfl <;>
+            refine ⟨by decide, by decide, by decide, ?_⟩ <;> intro c hc <;>
+            simp only [List.mem_cons, List.mem_nil_iff, or_false] at hc <;> subst hc <;>
+            simp [OffOK]
+        · intro s hs; cases hs; simp [OffOK]
+        · intro v hv
+          simp only [List.mem_cons, List.mem_nil_iff, or_false] at hv
+          rcases hv with rfl | rfl <;> simp [OffOK]
+      · exact ⟨by decide, (by intro b hb; cases hb), (by intro s hs; cases hs), by decide,
+          (by intro v hv; cases hv)⟩)
+    (by intro n hn; cases hn; decide)
+
+example : exIdx.refs ≠ [] := by decide
+
 end Hts.Props.C15
